@@ -217,8 +217,17 @@ def run_config(cfg, res):
   r = gen.rng(cfg['seed'], 'C10', cfg['name'])
   label = 'fc%d' % cfg['fc']
   nh = 3 if cfg['tier'] == 'quick' else 8
-  for i in range(nh):
+  tiny = []
+  if cfg.get('ticks'):
+    # tiny histories around one tick, explored with every pair of preemptions: the tick lands inside a drain of the last
+    # (or only) cached series, inside a refused store, right after the cache emptied
+    tiny = [([('store', 'm0', 100), ('tick',)], 1), ([('store', 'm0', 100), ('store', 'm0', 101), ('tick',), ('store', 'm1', 100)], 2),
+            ([('store', 'm0', 100), ('store', 'm1', 100), ('tick',), ('tick',)], 2)]
+  for i in range(nh + len(tiny)):
     ops, ndr = gen_history(r, cfg['max'], tagged=bool(cfg.get('pipeline')))
+    if i >= nh:
+      ops, ndr = tiny[i - nh]
+      ops = list(ops)
     if cfg.get('lag'):
       # timestamps around the virtual now (1000000): older than the lag and younger
       ops = [(o[0], o[1], (999900 if r.random() < 0.5 else 1000000 - r.choice([0, 5, 29])) + (o[2] - 100 if o[2] < 200 else 0)) if o[0] == 'store' else o for o in ops]
@@ -227,7 +236,7 @@ def run_config(cfg, res):
       for _ in range(r.randint(1, 4)):
         ops.insert(r.randrange(0, len(ops) + 1), ('relaybuf',))
       ndr += 2
-    if cfg.get('ticks'):
+    if cfg.get('ticks') and i < nh:
       for _ in range(r.randint(1, 3)):
         ops.insert(r.randrange(len(ops) // 2, len(ops) + 1), ('tick',))
       ndr += 1
@@ -258,6 +267,13 @@ def run_config(cfg, res):
     h0 = one(S.DeviationPolicy({}), 'baseline')
     one(S.DeviationPolicy({0: 1}), 'mirror')
     stride = 1 if cfg['tier'] == 'thorough' else 2
+    if i >= nh:
+      # switches concentrated inside the drain's critical section (and rare elsewhere)
+      def hot(frame):
+        return frame.f_code.co_name in ('_pop', 'pop', 'drain_metric', '_check_available_space')
+      for _ in range(150 if cfg['tier'] == 'quick' else 600):
+        one(S.TargetedPolicy(gen.rng(r.random(), 'tp'), hot, p_hot=r.choice([0.3, 0.5, 0.7]), p_cold=r.choice([0.01, 0.03])), 'targeted')
+      continue
     for d in range(0, h0.decisions + 2, stride):
       hi = one(S.DeviationPolicy({d: 1}), 'preempt@%d' % d)
       if cfg['tier'] == 'thorough' and h0.decisions < 120:
